@@ -478,6 +478,22 @@ func runC19(r *Runner, g *Gen, tier string) string {
 		}
 		r.Do(L(items...), k > 2, "internseq")
 	}
+	// a large table (beyond any small-table fast path), then a race on new and old values
+	for k := 0; k < scale(tier, 6, 200); k++ {
+		var big []*Sexp
+		for v := 0; v < 70+k; v++ {
+			big = append(big, A(hx([]byte(fmt.Sprintf("value-%03d", v)))))
+		}
+		t1 := []*Sexp{A(hx([]byte("value-001"))), A(hx([]byte("fresh-a"))), A(hx([]byte("value-069"))), A(hx([]byte("fresh-b")))}
+		var sch []*Sexp
+		for q := 0; q < 4*(70+k)+8+k; q++ {
+			sch = append(sch, A("0"))
+		}
+		for q := 0; q < 40; q++ {
+			sch = append(sch, A(fmt.Sprint(q%2)))
+		}
+		r.Do(L(A("internsched"), L(A("reqs"), L(append(big, A(hx([]byte("fresh-b"))), A(hx([]byte("fresh-c"))))...), L(t1...)), L(sch...)), true, "internsched.large")
+	}
 	// concurrent: 2-3 goroutines share one interned field; deterministic schedules over the intern yield points
 	m := scale(tier, 600, 40000)
 	for i := 0; i < m; i++ {
